@@ -333,7 +333,30 @@ pub fn token(rng: &mut Rng, ctx: &Ctx, kind: usize) -> String {
                 _ => format!("{}{}{}", csi(rng), param(rng, cols), f),
             }
         }
-        K_SCROLL => match rng.weighted(&[12, 12, 14, 14, 18, 8, 8, 8, 6]) {
+        K_SCROLL => match rng.weighted(&[12, 12, 14, 14, 18, 8, 8, 8, 6, 8]) {
+            9 => {
+                // composite: whole-screen scrolls, then a top-anchored (or inner) partial region and a scroll inside
+                // it, all within one string (so that no end-of-call trim happens in between)
+                let mut s = String::new();
+                if rng.chance(50) {
+                    s.push_str("\x1b[r");
+                }
+                s.push_str("\x1b[999;1H");
+                for i in 0..rng.range(1, 3) {
+                    s.push((b'A' + i as u8) as char);
+                    s.push('\n');
+                }
+                let n = if rows >= 2 { rng.range(1, rows - 1).max(1) } else { 1 };
+                let t = if rng.chance(70) { 1 } else { rng.range(1, n) };
+                s.push_str(&format!("\x1b[{};{}r", t, n.max(t + 1).min(rows.max(1))));
+                match rng.below(4) {
+                    0 => s.push_str(&format!("\x1b[{}S", rng.range(1, 2))),
+                    1 => s.push_str(&format!("\x1b[{};1H\n\n", n.max(t + 1).min(rows.max(1)))),
+                    2 => s.push_str(&format!("\x1b[{};1H\x1b[{}M", t, rng.range(1, 2))),
+                    _ => s.push_str(&format!("\x1b[{}T", rng.range(1, 2))),
+                }
+                s
+            }
             0 => format!("{}{}S", csi(rng), param(rng, rows)),
             1 => format!("{}{}T", csi(rng), param(rng, rows)),
             2 => format!("{}{}L", csi(rng), param(rng, rows)),
